@@ -52,6 +52,28 @@ add("C12", "exploration", "runtime monitoring: label-based per-line structure or
     "Line count, terminators, leading/trailing whitespace, benign and switched-off items and separators conserved on every observed text; each line independent of the others modulo pseudonym renumbering.",
     "Benign vocabulary is fixed data; tokens are re-labelled from content where a random value happens to contain a listed item.", "DESIGN.md 2/C12")
 
+add("C13", "exploration", "runtime monitoring: byte comparison of outputs across repeated runs, child interpreters with varied PYTHONHASHSEED, and histories of earlier anonymizers in the same process; module-level state watched at quiescent points",
+    "Identical bytes observed across repetitions, hash seeds (library driver and CLI) and after histories of unrelated anonymizers; the reported random salt reproduces the output.",
+    "Harness never seeds the global random module; option lists are fresh objects.", "DESIGN.md 2/C13")
+add("C14", "exploration", "runtime monitoring: hostile-input workload (enumerated piece strings, grammar-aware hostile fillers in every slot of every catalogue form, long runs, coverage-guided mutation via sys.monitoring) with the exception itself as oracle",
+    "No exception and one line out per line in on every observed hostile line x salt x feature subset, also through anonymize_files (no ERROR record, no truncated output).",
+    "Lines are decodable text without terminators; option sets valid.", "DESIGN.md 2/C14")
+add("C15", "exploration", "runtime monitoring: differential two-pipeline monitor (multi-feature anonymizer vs chained single-feature anonymizers) over all 16 feature subsets (+undo)",
+    "Byte equality of the two pipelines on every observed text x subset x option set, including items produced by one stage that a later stage can see.",
+    "Single-feature anonymizers built through the same public constructor.", "DESIGN.md 2/C15")
+add("C16", "fault_enumeration", "runtime monitoring with fault injection: generated trees, every fault kind at every position and pair of positions for small trees, audit-hook + strace + snapshot observers, reference run without the failing files, entry-point differential",
+    "Exhaustive fault kind x position (and pairs) for trees of <= 6 files, sampled for larger ones; path set, untouched inputs, ERROR records, isolation and entry-point agreement observed on every run.",
+    "Dot-directories and aliased input/output paths are not generated.", "DESIGN.md 2/C16")
+add("C17", "exploration", "runtime monitoring: applied pairs read off generator labels in the written files vs parsed dump; fresh-instance reference for every dumped line",
+    "Every applied pair found in the dump with the replacement used, uniqueness of originals and replacements, every dumped pair agrees with the reference, via library and CLI, both families, many host-bit values.",
+    "Output tokens are read back by position assuming non-address text is unchanged (C06's oracle).", "DESIGN.md 2/C17")
+add("C18", "exploration", "runtime monitoring: round-trip oracle + independent decoder on the real codec, exhaustive over salt x code point x table position, mutation of ciphertexts for the malformed half",
+    "All 65 x 256 x 7 (salt, code point, position) triples enumerated; random plaintexts and salt strings; malformed strings must raise ValueError exactly when the independent grammar rejects them. One known finding (empty plaintext).",
+    "Independent codec written from the published algorithm.", "DESIGN.md 2/C18")
+add("C19", "exploration", "runtime monitoring: main() driven in process and as child process over generated argument vectors; audit-hook / strace / snapshot observers; differential between spellings and against the documented library translation",
+    "Every rejection kind in every spelling ends in an error with zero write events; command line / config file / mixed / conflicting spellings and the direct library call produce identical trees and dumps; defaults and the private-address equivalence observed.",
+    "Config values restricted to [A-Za-z0-9._/,:-]+.", "DESIGN.md 2/C19")
+
 
 def main():
     checks = []
